@@ -133,24 +133,47 @@ def checkRule (ir : ProgIR) (gmap : Nat → Nat) (r : RuleIR) (action constraint
                   -- tree, which computes the rule's value wherever that is defined (foldC, evalS_foldC)
                   if fold e != fold g.val ∧ foldC e != g.val then
                     out := out ++ [s!"item {j + 1}: user{w.idx + 1} {w.op} <expr>: the action computes a different value; {witness (fold e) (fold g.val)}; rule {repr (fold e)} font {repr (fold g.val)}"]
-  -- item constraints
+  -- rule constraint: conjunction of the enclosing `if` conditions and of the item tests
   let consItems := (r.items.zipIdx.filter fun (it, _) => it.constraint.isSome)
-  if consItems.isEmpty then
-    pure ()
+  if consItems.isEmpty ∧ r.ifs.isEmpty then
+    if constraint.size != 0 then out := out ++ ["the rule has no constraint but the font stores constraint code"]
   else
     match parse (constraint.toList.map (·.toNat)) with
     | none => out := out ++ ["constraint does not parse"]
     | some nodes =>
       let ctxs := nodes.filterMap fun n => match n with | .ctx s b => some (s, b) | _ => none
-      let glue := nodes.filterMap fun n => match n with | .ins i => some i | _ => none
-      -- glue: conjunction of the item tests, then pop-and-return
-      let ands := glue.filter (·.op = kopAnd)
-      let others := glue.filter (fun i => i.op ≠ kopAnd ∧ i.op ≠ kopPopRet)
-      if !others.isEmpty then out := out ++ [s!"constraint: unexpected instructions between the item tests: {others.map (·.op)}"]
+      -- symbolic run of the whole constraint: the k-th item test is the opaque leaf `feat (1000000 + k)`
+      let mut st : List SExpr := []
+      let mut k := 0
+      let mut bad := false
+      let mut returned := false
+      for n in nodes do
+        if returned then bad := true
+        match n with
+        | .ctx _ _ => st := (.feat (1000000 + k) 0) :: st; k := k + 1
+        | .ins i =>
+          if i.op = kopPopRet then returned := true
+          else match classify i with
+            | some op => match dstepA op st with
+              | some st' => st := st'
+              | none => bad := true
+            | none => bad := true
+      let rec conj : SExpr → List SExpr
+        | .bin .and a b => conj a ++ conj b
+        | e => [e]
+      match bad, returned, st with
+      | false, true, [tree] =>
+        let got := (conj tree).map fold
+        let wantIfs := r.ifs.map fun c => toS r gmap 0 c
+        if wantIfs.any (·.isNone) then out := out ++ ["IRERR: if-condition outside the modelled fragment"]
+        else
+          let want := ((wantIfs.filterMap id).flatMap conj).map fold ++ (List.range consItems.length).map fun q => SExpr.feat (1000000 + q) 0
+          if got != want then
+            out := out ++ [s!"constraint: the code tests the conjunction {repr got}, the rule is under {repr want} (leaves feat 100000k = k-th item test)"]
+      | _, _, _ => out := out ++ ["constraint: code is not a single expression followed by pop-and-return"]
       if ctxs.length != consItems.length then
         out := out ++ [s!"constraint: the rule constrains {consItems.length} items, the code tests {ctxs.length}"]
       else
-        if ands.length + 1 != ctxs.length then out := out ++ [s!"constraint: {ctxs.length} item tests combined by {ands.length} 'and'"]
         for ((it, j), (slot, body)) in consItems.zip ctxs do
           nCons := nCons + 1
           let wantSlot : Int := inIdx r j - inIdx r pre
